@@ -6,7 +6,9 @@ es = json.load(open('/root/.vp/EVIDENCE.schema.json'))
 for c in m['checks']:
     f = '/verif/' + c['evidence_file']
     try:
-        jsonschema.validate(json.load(open(f)), es); print('ok', f)
+        jsonschema.validate(json.load(open(f)), es); print("ok", f)
+    except jsonschema.ValidationError as e:
+        print("INVALID", f, str(e)[:200])
     except FileNotFoundError:
         print('MISSING', f)
 ids = {c['property_id'] for c in m['checks']} | {n['property_id'] for n in m.get('not_applicable', [])}
